@@ -45,6 +45,15 @@ void verif_in(const char* name, int idx, void* p, int size);
 #define END ((void)0)
 #define HARNESS(name) void name(void)
 #endif
+/* fixed ids of the exception model (vf/ll2c.py EXC_IDS, wrappers/verif_wrap.h) */
+#define VERIF_EXC__ZTISt12domain_error 1
+#define VERIF_EXC__ZTISt16invalid_argument 2
+#define VERIF_EXC__ZTISt11logic_error 3
+#define VERIF_EXC__ZTISt13runtime_error 4
+#define VERIF_EXC__ZTISt12out_of_range 5
+#define VERIF_EXC__ZTISt12length_error 6
+#define VERIF_EXC__ZTISt14overflow_error 7
+#define VERIF_EXC__ZTISt9exception 8
 static inline u32 f32_bits(f32 f) { union { f32 f; u32 u; } x; x.f = f; return x.u; }
 static inline u64 f64_bits(f64 f) { union { f64 f; u64 u; } x; x.f = f; return x.u; }
 static inline f32 bits_f32(u32 u) { union { f32 f; u32 u; } x; x.u = u; return x.f; }
